@@ -981,7 +981,9 @@ func (p *c14) Run(tier string, seed int64, idx int) core.CaseResult {
 			}
 			on := featureClosure(c.ms, enabled)
 			pruned, removed := pruneAbsent(c.ms, on, false)
+			compileFeatureForm, compileAllFeatures = mask%4, c.ms.Features
 			a := compileTexts(texts, nil, fl, nil, true)
+			compileFeatureForm, compileAllFeatures = 0, nil
 			b := compileTexts(pruned.Texts(nil), nil, fl, nil, true)
 			res.Key(fmt.Sprintf("%v|%s", fl, input))
 			if !check(a, "compile(F)") || !check(b, "compile(pruned source, F)") {
